@@ -21,6 +21,7 @@ def run(tier, seed):
     # design level: RemovalFrame (everything that survives a removal is unchanged) + the graph rules after every removal
     for sd in ("svc", "rich"):
         tc.model_check(rep, "MC_FimTopology seed=" + sd, tc.consts(2 if quick else 4, sd, "full"))
+    tc.model_check(rep, "MC_FimTopology seed=subs", tc.consts(2 if quick else 3, "subs", "full"))
     tc.model_check(rep, "MC_FimTopology seed=fac3 profile=fac", tc.consts(4 if quick else 6, "fac3", "fac"))
     scripts = []
     for sd in ("svc", "rich"):
@@ -28,6 +29,10 @@ def run(tier, seed):
                                keep=lambda p: p["op"]["op"] in REMOVALS or p["op"]["op"] in HANDLE_OPS or p["op"]["op"] == "Views",
                                workers=8)
     scripts += tc.generate(rep, "Gen_FimTopology seed=twin (removal transitions)", tc.consts(2 if quick else 3, "twin", "full"),
+                           keep=lambda p: p["op"]["op"] in REMOVALS or p["op"]["op"] in HANDLE_OPS or p["op"]["op"] == "Views",
+                           workers=8)
+    # a port with two sub-interfaces (random walks reach this only by luck)
+    scripts += tc.generate(rep, "Gen_FimTopology seed=subs (removal transitions)", tc.consts(2 if quick else 3, "subs", "full"),
                            keep=lambda p: p["op"]["op"] in REMOVALS or p["op"]["op"] in HANDLE_OPS or p["op"]["op"] == "Views",
                            workers=8)
     # a facility with three interfaces: which of them is connected when the facility goes is the explorer's choice
